@@ -1,7 +1,8 @@
 #!/bin/sh
 # Offline, idempotent creation of /verif/.venv: an overlay on /venv (repo deps + editable ethosu) plus z3/crosshair/cvc5.
 set -e
-V=/verif/.venv
+D="$(cd "$(dirname "$0")" && pwd)"
+V="$D/.venv"
 if [ -x "$V/bin/python" ] && "$V/bin/python" -c "import z3, crosshair, numpy, ethosu.vela" >/dev/null 2>&1; then
     exit 0
 fi
@@ -15,4 +16,4 @@ fi
   echo "import site; site.addsitedir('/venv/lib/python3.12/site-packages')" > "$V/lib/python3.12/site-packages/_base.pth"
   PIP_NO_INDEX=1 "$V/bin/pip" install -q --no-index --find-links /opt/veriftools/wheels z3-solver crosshair-tool cvc5 >/dev/null
   "$V/bin/python" -c "import z3, crosshair, numpy, ethosu.vela"
-) 9>/verif/.venv.lock
+) 9>"$D/.venv.lock"
